@@ -180,10 +180,13 @@ PROPS["C11"] = {
 }
 
 PROPS["C20"] = {
-    "verus_units": ["ffi_serde"],
+    "verus_units": ["ffi_serde", "serde_enums"],
     "replay": "ffi_serde",
-    "floor": {"obligations": 17},
+    "replay_by_unit": {"serde_enums": ["type_serde"]},
+    "floor": {"obligations": 30},
     "trusted_base": [
+        "unit serde_enums: Type::serialize / Value::serialize cut verbatim (only the generic header `fn serialize<S>(&self, serializer: S) -> Result<S::Ok, S::Error> where S: Serializer` is replaced by a header over the model types and `self` by a parameter), the local `enum Field` and `visit_enum` of both Deserialize impls cut out of the function bodies (rule X6: nested item), local helper structs hoisted (rule nhoist); enum Type, enum Value, PType, RecordTypeField, TypeSchemeId cut verbatim (Intermediate's payload replaced by an opaque type). TRUSTED model of the serde data model: a value of an externally tagged enum crosses as (variant index, encoded fields in order); Serializer::serialize_struct_variant / serialize_field / end / serialize_unit_variant build exactly that; EnumAccess::variant hands the visitor the variant of the local `Field` enum whose POSITION IN THE DECLARATION is the index (what serde's derived field_identifier visitor does with an integer identifier, which is what bincode sends; `field_ordinal` is generated mechanically from the declaration by rule nordinal) and a VariantAccess over the same fields; newtype_variant::<T>() yields a T whose fields (one for a plain type, all of them in declaration order for a derived struct: generated by rule nhoist) are the fields on the wire; unit_variant() succeeds only without fields",
+        "unit serde_enums, ASSUMED: the encodings of the FIELD types by their own Serialize impls (derived: PType, RecordTypeField; interner keys TypeNodeId / ExprNodeId / Symbol; Vec, Box, f64, u64, tuples, Option from serde itself) are injective (axiom_enc_injective), i.e. those types round-trip; a string identifier (self-describing formats) is not modelled: `rename_all` and the names list passed to deserialize_enum are not examined",
         "interner laws: Symbol::as_str and ToSymbol::to_symbol are inverse (axiom_intern_inverse / axiom_str_inverse); Symbol::as_str / to_symbol are external_body models",
         "opaque models of ExprNodeId, TypeNodeId, EvalStage, Environment<T>, ExtFunction, Rc<T>, RefCell<T> (payloads never inspected by the carriers)",
         "bincode model: serialize yields wire(x); deserialize accepts only an encoding of its result (third-party wire format, serde derive on FfiValue and the hand-written Serialize/Deserialize impls are NOT examined)",
@@ -192,10 +195,10 @@ PROPS["C20"] = {
     ],
     "assumptions": ["f64 equality is bit equality (the conversions move the f64, they never compute on it)"],
     "not_covered": [
-        "the 'every type decodes to something equal' half: types/serde_impl.rs, interpreter/serde_impl.rs (generic over S: Serializer; meaning defined by a third-party data format)",
+        "types half beyond the two hand-written enum impls: the Serialize/Deserialize impls of TypeNodeId / ExprNodeId / Symbol (interner keys: they cross as keys and mean the same only inside one process image), the derived impls of the field types, and the bytes bincode produces (serde data model assumed as stated)",
         "bincode round trip deserialize(serialize(x)) == x for FfiValue (assumed shape of the wire model only)",
     ],
-    "explanation": "C20 value half: to_ffi_value refuses exactly the values that cannot cross (r.is_ok() == crossable(v)) and otherwise produces the structural encoding enc_rel; to_value is total and produces dec_rel; lemma_roundtrip: crossable(v) && enc_rel(v,f) && dec_rel(f,w) ==> val_eq(v,w) (numbers bit-identical, symbols via interner laws, arbitrary nesting, empty aggregates); the four (de)serialize wrappers compose the conversions with bincode and refuse when any argument cannot cross.",
+    "explanation": "C20 types half (unit serde_enums, also the hand-written serde pair of interpreter values): serialize writes exactly wire_of(x) = (position of the same-named identifier in the local Field enum, encoded fields in declaration order) and refuses the variants that have no identifier; visit_enum returns only a value whose wire_of is the wire it was handed; wire_of is injective (lemma_*_wire_injective, from the injectivity of the field encodings) -- so whatever an encoded type / value decodes to equals what was encoded (lemma_type_roundtrip / lemma_value_roundtrip). Indices are not hard-coded in the contract: renumbering both sides consistently keeps the proof. C20 value half: to_ffi_value refuses exactly the values that cannot cross (r.is_ok() == crossable(v)) and otherwise produces the structural encoding enc_rel; to_value is total and produces dec_rel; lemma_roundtrip: crossable(v) && enc_rel(v,f) && dec_rel(f,w) ==> val_eq(v,w) (numbers bit-identical, symbols via interner laws, arbitrary nesting, empty aggregates); the four (de)serialize wrappers compose the conversions with bincode and refuse when any argument cannot cross.",
     "samples": [
         {"obligation": "Value::to_ffi_value::ensures", "clause": "r.is_ok() == crossable(*self); Ok(f) ==> enc_rel(*self, f)"},
         {"obligation": "lemma_roundtrip", "clause": "crossable(v) && enc_rel(v,f) && dec_rel(f,w) ==> val_eq(v,w)"},
